@@ -14,6 +14,8 @@ Decided (the block tables are parsed at the documented positions and the reassem
   PAIR     after a successful inflateInit2_ every path to a return passes inflateEnd
 Not decided: the bytes themselves (inflate correctness, concatenation arithmetic, 128-byte padding, per-LOD bookkeeping).
 """
+import json
+
 from .. import dispatch as D
 from ..mir import const_int, op_place
 from ..prov import derive, index_of
@@ -354,6 +356,133 @@ def run(ctx):
         app = any((t.get("res") or "").endswith("::append") for b_ in prog.deep_bodies(sb.name) for _bi, t in b_.calls())
         ctx.ob("STD", "table-order", app and order, "blocks are appended in table order (loop counter index or forward iteration over the table)", sb.file, sb.line)
 
+    # ---- POS: every absolute position the three section readers hand to `seek(SeekFrom::Start(..))` on the dat file or
+    # to read_data_block is a *sum* of the entry offset, the header size and table values (no subtraction, scaling or
+    # shift: a position before the entry or a scaled offset reads someone else's blocks); the model reader walks its
+    # block-size table with a counter that starts at 0 and advances by exactly one per block read, and every block it
+    # reads is written to the output before the next one is read
+    n_pos = 0
+    for fn_ in ("read_standard_file", "read_model_file", "read_texture_file"):
+        pb_ = prog.body("sqpack::data::SqPackData::" + fn_)
+        if not pb_:
+            ctx.fail_closed("POS", f"{fn_} not found")
+            continue
+        pix = index_of(pb_)
+        for bi_, t_ in pb_.calls():
+            c_ = t_.get("res") or ""
+            last_ = c_.split("::")[-1]
+            if not ((last_ == "seek" and len(t_["args"]) == 2) or ("sqpack::read_data_block" in c_ and len(t_["args"]) == 2)):
+                continue
+            if "file" not in derive(pix, t_["args"][0]).names:
+                continue  # a seek in the output buffer
+            d_ = derive(pix, t_["args"][1])
+            if last_ == "seek" and not any("SeekFrom" in str(x) for x in d_.names | d_.calls | {str(pix.resolve(t_["args"][1]))}) and not d_.ops and not d_.params:
+                continue
+            n_pos += 1
+            bad_ops = sorted(d_.ops - {"Add", "AddWithOverflow", "AddUnchecked"}) + sorted({c2.split("::")[-1] for c2 in d_.calls if "std::ops::" in c2 and c2.split("::")[-1] in ("sub", "mul", "div", "rem", "shl", "shr", "neg", "not", "bitand", "bitor", "bitxor")})
+            ctx.ob("POS", f"{fn_}|sum-only", not bad_ops, f"{fn_}: a dat-file position ({last_} at {t_['sp']['at']}) is computed with {sorted(d_.ops)} from {sorted(d_.names & {'offset', 'size', 'stack_size', 'runtime_size', 'vertex_buffer_size', 'index_buffer_size', 'compressed_offset'})}; positions are sums of the entry offset, the header size and table values" + (f"; NOT A SUM: {bad_ops}" if bad_ops else ""), pb_.file, pb_.line, sample=(n_pos == 1))
+    ctx.floor("POS", "dat-file positions examined in the three section readers", n_pos, 14)
+    mb_ = prog.body("sqpack::data::SqPackData::read_model_file")
+    if mb_:
+        mix_ = index_of(mb_)
+        n_idx = 0
+        for bi_, t_ in mb_.calls():
+            if (t_.get("res") or "").split("::")[-1] == "get" and len(t_["args"]) == 2 and any("Vec<u16>" in str(mb_.locals[l_].get("ty", "")).replace("std::vec::", "") for l_ in derive(mix_, t_["args"][0]).locals if l_ < len(mb_.locals)):
+                d_ = derive(mix_, t_["args"][1])
+                n_idx += 1
+                ok_ = d_.ops <= {"Add", "AddWithOverflow"} and d_.consts <= {0, 1} and 0 in d_.consts
+                ctx.ob("POS", "model|block-table-counter", ok_, f"the block-size table index is computed with {sorted(d_.ops)} from constants {sorted(d_.consts)}; it must start at 0 and only ever be advanced by additions", mb_.file, mb_.line, sample=(n_idx == 1))
+        ctx.floor("POS", "block-size table lookups in read_model_file", n_idx, 4)
+        # the counter is captured by reference by the two section closures, so its updates are stores through the
+        # captured reference: every constant self-increment of a usize place in the (inlined) reader is `+ 1`
+        incs = []
+        for _bi, _si, st_ in mb_.stmts():
+            rv_ = st_.get("rv") or {}
+            if st_["k"] == "assign" and rv_.get("k") == "bin" and rv_["op"] in ("Add", "AddWithOverflow", "Sub", "SubWithOverflow", "Mul", "MulWithOverflow"):
+                kb_ = (rv_["b"].get("k") if isinstance(rv_["b"], dict) else None) or {}
+                src_ = rv_["a"].get("c") or rv_["a"].get("m") or {}
+                if "bits" in kb_ and str(src_.get("ty", "")) == "usize" and not (st_.get("sp") or {}).get("mx"):
+                    # a self-update: the result (field 0 of the checked pair, or the value itself) is stored back into
+                    # the place it was read from
+                    tl_ = st_["lhs"]["l"]
+
+                    def _canon(pl_):
+                        # a place reached through a temporary copy of a reference names the referent's slot
+                        whole_ = [d4 for d4 in mix_.defs.get(pl_.get("l"), []) if not (d4[0] == "assign" and d4[3]["lhs"].get("p"))]
+                        dts_ = [d4 for d4 in whole_ if d4[0] == "assign" and d4[3]["rv"].get("k") == "use"]
+                        srcs_ = {json.dumps(d4[3]["rv"]["a"].get("c") or d4[3]["rv"]["a"].get("m"), sort_keys=True) for d4 in dts_}
+                        if pl_.get("p") and pl_["p"][0] == "*" and dts_ and len(dts_) == len(whole_) and len(srcs_) == 1:
+                            q_ = json.loads(next(iter(srcs_)))
+                            if q_:
+                                return (q_["l"], json.dumps(q_["p"]) + json.dumps(pl_["p"][1:]))
+                        return (pl_.get("l"), json.dumps(pl_.get("p")))
+
+                    back = _canon(st_["lhs"]) == _canon(src_)
+                    for _b2, _s2, st2 in mb_.stmts():
+                        rv2 = st2.get("rv") or {}
+                        o2 = (rv2.get("a") or {}) if rv2.get("k") == "use" else {}
+                        pl2 = o2.get("m") or o2.get("c") or {}
+                        if st2["k"] == "assign" and pl2.get("l") == tl_ and _canon(st2["lhs"]) == _canon(src_):
+                            back = True
+                    if back:
+                        incs.append((rv_["op"], int(str(kb_["bits"]), 0), st_["sp"]["at"]))
+        # ... and starts at 0: follow the captured reference back to the variable the closures share
+        def _chase(op_, depth=0):
+            """operand/place -> the local variable a (copied, reborrowed, captured) reference finally points to"""
+            pl_ = op_.get("c") or op_.get("m") or op_ if isinstance(op_, dict) else None
+            if not isinstance(pl_, dict) or "l" not in pl_ or depth > 12:
+                return None
+            prj = [x for x in pl_.get("p", []) if x != "*"]
+            whole_ = [d4 for d4 in mix_.defs.get(pl_["l"], []) if d4[0] == "assign" and not d4[3]["lhs"].get("p")]
+            if len(whole_) != 1:
+                return pl_["l"] if not prj else None
+            rv4 = whole_[0][3]["rv"]
+            if prj and isinstance(prj[0], dict) and "f" in prj[0]:
+                if rv4.get("k") == "agg" and rv4.get("ak") == "closure" and prj[0]["f"] < len(rv4["ops"]):
+                    return _chase(rv4["ops"][prj[0]["f"]], depth + 1)
+                if rv4.get("k") in ("use", "ref"):
+                    q4 = rv4.get("p") if rv4.get("k") == "ref" else (rv4["a"].get("c") or rv4["a"].get("m"))
+                    if q4:
+                        return _chase({"c": {"l": q4["l"], "p": list(q4.get("p", [])) + prj}}, depth + 1)
+                return None
+            if rv4.get("k") == "ref":
+                q4 = rv4["p"]
+                return _chase({"c": q4}, depth + 1) if [x for x in q4.get("p", []) if x != "*"] or mix_.defs.get(q4["l"]) and str(mb_.locals[q4["l"]].get("ty", "")).startswith("&") else q4["l"]
+            if rv4.get("k") == "use" and (rv4["a"].get("c") or rv4["a"].get("m")) and str(mb_.locals[pl_["l"]].get("ty", "")).startswith("&"):
+                return _chase(rv4["a"], depth + 1)
+            return pl_["l"]
+
+        starts = set()
+        for _bi, _si, st_ in mb_.stmts():
+            rv_ = st_.get("rv") or {}
+            if st_["k"] == "assign" and rv_.get("k") == "bin" and rv_["op"] in ("Add", "AddWithOverflow") and not (st_.get("sp") or {}).get("mx"):
+                kb_ = (rv_["b"].get("k") if isinstance(rv_["b"], dict) else None) or {}
+                src_ = rv_["a"].get("c") or rv_["a"].get("m") or {}
+                if "bits" in kb_ and str(src_.get("ty", "")) == "usize" and src_.get("p") and src_["p"][0] == "*":
+                    var_ = _chase({"c": {"l": src_["l"], "p": []}})
+                    if var_ is not None:
+                        for d4 in mix_.defs.get(var_, []):
+                            if d4[0] == "assign" and not d4[3]["lhs"].get("p") and d4[3]["rv"].get("k") == "use":
+                                c4 = const_int(d4[3]["rv"]["a"])
+                                starts.add(c4 if c4 is not None else "?")
+        ctx.ob("POS", "model|block-table-start", starts == {0}, f"initial value(s) of the block counter shared by the section closures: {sorted(map(str, starts))}; the first block of the stack section is entry 0 of the block-size table", mb_.file, mb_.line)
+        ctx.ob("POS", "model|block-table-step", len(incs) >= 2 and all(op_.startswith("Add") and c_ == 1 for op_, c_, _at in incs), f"constant updates of usize counters in read_model_file: {incs}; the block counter advances by exactly 1 after every block read", mb_.file, mb_.line)
+        n_rw = 0
+        reads_ = [(bi_, t_) for bi_, t_ in mb_.calls() if "sqpack::read_data_block" in (t_.get("res") or "")]
+        writes_ = [(bi_, t_) for bi_, t_ in mb_.calls() if (t_.get("res") or "").split("::")[-1] == "write_all"]
+        seeks_ = [(bi_, t_) for bi_, t_ in mb_.calls() if (t_.get("res") or "").split("::")[-1] == "seek" and "get" in {x.split("::")[-1] for x in derive(mix_, t_["args"][1]).calls}]
+        for rb_, rt_ in reads_:
+            n_rw += 1
+            # the write of this block: a write_all dominated by the read whose data derives from the read's result, and
+            # which dominates the seek to the next block
+            ok_ = False
+            for wb_, wt_ in writes_:
+                if mb_.dominates(rb_, wb_) and rb_ != wb_ and "read_data_block" in {x.split("::")[-1] for x in derive(mix_, wt_["args"][1]).calls}:
+                    if any(mb_.dominates(wb_, sb2) for sb2, _st in seeks_ if mb_.dominates(rb_, sb2)):
+                        ok_ = True
+            ctx.ob("POS", "model|block-written", ok_, f"a block read in read_model_file (block {rb_}) is written to the output before the reader moves to the next block: {ok_}", mb_.file, mb_.line, sample=(n_rw == 1))
+        ctx.floor("POS", "block reads in read_model_file", n_rw, 4)
+
     # ---- TEX
     tb = prog.body("sqpack::data::SqPackData::read_texture_file")
     if not tb:
@@ -561,6 +690,35 @@ def run(ctx):
                 ok_r = True
         ctx.ob("BLOCK", "deflated", ok_c, "deflated blocks: compressed_length bytes are inflated into a decompressed_length buffer", db.file, db.line, sample=True)
         ctx.ob("BLOCK", "raw", ok_r, "raw blocks: file_size bytes are read as they are", db.file, db.line)
+    # every buffer a block reader allocates for stored bytes is filled from the stream (read_exact) before it is
+    # inflated or returned, and the buffer it returns was written by the read or by the decompressor; the position
+    # of the block is an absolute one.  (Both readers: the dat reader and the patch reader of C03/C04.)
+    from ..posrule import seeks_from_start_sum_only as _sfs
+
+    n_fill = 0
+    for fn_ in ("sqpack::read_data_block", "sqpack::read_data_block_patch"):
+        fb_ = next((b for n_, b in prog.bodies.items() if n_.endswith(fn_)), None)
+        if not fb_:
+            ctx.fail_closed("BLOCK", f"{fn_} not found")
+            continue
+        fix_ = index_of(fb_)
+        allocs_ = [(bi_, t_) for bi_, t_ in fb_.calls() if fix_.callee(t_).split("::")[-1] == "from_elem" and not (t_.get("sp") or {}).get("mx", [])[1:]]
+        fills_ = [(bi_, t_) for bi_, t_ in fb_.calls() if fix_.callee(t_).split("::")[-1] in ("read_exact", "no_header_decompress", "read", "read_to_end")]
+        for ab_, at_ in allocs_:
+            n_fill += 1
+            dl_ = at_["dest"]["l"]
+            filled = False
+            for fb2, ft_ in fills_:
+                if not fb_.dominates(ab_, fb2):
+                    continue
+                outs = ft_["args"][1:]
+                if any(dl_ in derive(fix_, o_).locals for o_ in outs):
+                    filled = True
+            ctx.ob("BLOCK", f"{fn_.split('::')[-1]}|buffer-filled", filled, f"{fn_}: the buffer allocated at {at_['sp']['at']} is written by read_exact / the decompressor before it is used: {filled}", fb_.file, fb_.line, sample=(n_fill == 1))
+        if fn_.endswith("read_data_block"):
+            _sfs(ctx, "BLOCK", fb_, "read_data_block")
+    ctx.floor("BLOCK", "block buffers of the two block readers", n_fill, 6)
+
     cb = prog.body("compression::no_header_decompress")
     if not cb:
         ctx.fail_closed("BLOCK", "compression::no_header_decompress not found")
